@@ -76,3 +76,85 @@ Example C17_host_classes_inhabited :
   host_kind_of [Leaf TColon p; Leaf TColon p; Leaf (TIdent s_host) p] = HostNone /\
   host_kind_of [Leaf (TDelim 46) p; Leaf (TIdent s_host) p] = HostNone.
 Proof. exact host_classes_inhabited. Qed.
+
+(* ---- the low-priority output ---- *)
+From GE Require Import Proofs.CssTokProofs Proofs.CssClassProofs Proofs.CssFrame Proofs.CssHostLow Proofs.CssSheetLow.
+
+(* what one converted rule adds to the low-priority output, in the identifier / comment projection: the replayed wrappers
+   (the ghost tokens of the stack items, one per enclosing at-rule), the attribute selector(s), the block as a value *)
+Theorem C17_host_rule_low_identifiers : forall o st p body,
+  shaped body = true -> w_using_low st = false ->
+  lout (host_emit o st p body) =
+  lout st ++ stack_idc st ++
+  eidc (host_selector o ++ [mke GFree TCurly] ++ val_spec o false body None false ++ [mke GFree TCloseCurly]).
+Proof. exact host_emit_low_idc. Qed.
+Print Assumptions C17_host_rule_low_identifiers.
+
+(* every other rule leaves the low-priority output, the wrapper stack and the mode alone (the selector walker; the same
+   holds for the value walkers and the `@import` branch: Proofs/CssFrame.v) *)
+Theorem C17_other_rules_leave_low_output : forall o l ic hw st,
+  w_using_low st = false ->
+  w_using_low (snd (qr_loop o l ic hw st)) = false /\ w_low (snd (qr_loop o l ic hw st)) = w_low st /\
+  w_stack (snd (qr_loop o l ic hw st)) = w_stack st.
+Proof. intros o l ic hw st H. exact (Fr_qr_loop st o l ic hw st (Fr_refl st H)). Qed.
+Print Assumptions C17_other_rules_leave_low_output.
+
+(* WHOLE SHEETS, every option set: the identifiers and comments of the low-priority output are those of the specification's
+   low stream - one block per pure `:host` rule, in source order, each inside the replayed chain of its enclosing at-rules.
+   With C09_class_exact_sheet (the same for the normal output): every rule's identifiers appear in exactly one output. *)
+Theorem C17_low_exact_sheet : forall o tree endp,
+  shaped tree = true ->
+  so_complete (expected o tree) = true ->
+  idc (o_tokens (w_low (transform o tree endp))) = idc (map e_tok (so_low (expected o tree))).
+Proof. exact low_exact_sheet. Qed.
+Print Assumptions C17_low_exact_sheet.
+
+Example C17_low_exact_sheet_inhabited :
+  let o := mkopts (Some [112]) None 1144750080 None true (Some [104]) in
+  let P := mkpos in
+  let tree := [Leaf (TAt s_media) (P 0 0); Leaf (TWs [32]) (P 0 6); Leaf (TIdent [120]) (P 0 7);
+               Block TCurly (P 0 8)
+                 [Leaf TColon (P 0 9); Leaf (TIdent s_host) (P 0 10);
+                  Block TCurly (P 0 14) [Leaf (TIdent [97]) (P 0 15); Leaf TColon (P 0 16); Leaf (TIdent [98]) (P 0 17)] (P 0 18) true;
+                  Leaf (TDelim 46) (P 0 19); Leaf (TIdent [99]) (P 0 20); Block TCurly (P 0 21) [] (P 0 22) true]
+                 (P 0 23) true] in
+  shaped tree = true /\ so_complete (expected o tree) = true /\
+  idc (o_tokens (w_low (transform o tree (P 0 24)))) = [TIdent [120]; TIdent s_wx_host; TIdent s_is; TIdent [97]; TIdent [98]] /\
+  idc (o_tokens (w_normal (transform o tree (P 0 24)))) = [TIdent [120]; TIdent [112; 45; 45; 99]].
+Proof. exact low_exact_sheet_inhabited. Qed.
+
+(* ... and in the SHAPE projection (every token that is not white space: kind, unit, strings; numeric values forgotten),
+   outside class D29: the low-priority output consists, per pure `:host` rule, of the replayed wrapper chain with its `{`s,
+   the attribute selector(s), the declaration block with every rpx length converted, and the closing `}`s *)
+From GE Require Proofs.CssShapeProofs Proofs.CssSheetLowShape.
+Theorem C17_low_shape_exact_sheet : forall o tree endp,
+  shaped tree = true -> k29_list tree = false ->
+  so_complete (expected o tree) = true ->
+  CssShapeProofs.shp (o_tokens (w_low (transform o tree endp))) = CssShapeProofs.shp (map e_tok (so_low (expected o tree))).
+Proof. exact CssSheetLowShape.low_shape_sheet. Qed.
+Print Assumptions C17_low_shape_exact_sheet.
+
+(* "with conversion off nothing is moved": for EVERY token tree (malformed ones included) and every option set the
+   low-priority output stays empty, the wrapper stack ends empty, the mode is the normal output *)
+From GE Require Proofs.CssHostOff.
+Theorem C17_host_off_nothing_moved : forall o tree endp,
+  convert_host o = false ->
+  w_low (transform o tree endp) = o_init /\ w_stack (transform o tree endp) = [] /\
+  w_using_low (transform o tree endp) = false.
+Proof. exact CssHostOff.host_off_nothing_moved. Qed.
+Print Assumptions C17_host_off_nothing_moved.
+
+(* the partition itself: in the specification every complete qualified rule feeds exactly one stream - the normal one (no
+   `:host`, or conversion off), the low-priority one (pure `:host`), or neither, with one warning (combined); the two
+   whole-sheet theorems (C09_class_exact_sheet / C08_token_shapes_exact_sheet for the normal output, C17_low_exact_sheet /
+   C17_low_shape_exact_sheet for the low-priority one) carry this over to the outputs of the transformer *)
+From GE Require Proofs.CssSheetClass Proofs.CssPartition.
+Theorem C17_rule_feeds_exactly_one_stream : forall o chain prelude t p body e c,
+  let q := CssSheetClass.q_this o chain prelude (Some (Block t p body e c)) in
+  match (if convert_host o then host_kind_of prelude else HostNone) with
+  | HostNone => so_low q = [] /\ so_warn q = [] /\ so_normal q <> []
+  | HostPure => so_normal q = [] /\ so_warn q = [] /\ so_low q <> []
+  | HostCombined => so_normal q = [] /\ so_low q = [] /\ so_warn q = [W_HOST]
+  end.
+Proof. exact CssPartition.spec_rule_partition. Qed.
+Print Assumptions C17_rule_feeds_exactly_one_stream.
